@@ -5,6 +5,9 @@ import Mdsort.Proofs.WorldWholeExit
 import Mdsort.Proofs.WorldExitTop
 import Mdsort.Proofs.WorldExitEx
 import Mdsort.Proofs.WorldDryF21
+import Mdsort.Proofs.WorldLinTop
+import Mdsort.Proofs.WorldLinEx
+import Mdsort.Proofs.WorldFuelEx
 
 /-!
 # C01 - no message is lost or duplicated when an I/O operation fails
@@ -268,22 +271,28 @@ through the main loop (Proofs/WorldWhole*.lean).
   (`C01_noDiscard_of_syntax`: true of every rule tree that contains no `discard`).  Discard is
   excluded over the whole configuration; lists that end in a discard are treated, per message and for
   at most one fault, by `C01_single_fault_discard`.
-* `Proofs.wholeRewrite env orc expr dir name c`: what `message_write` renders for the file `name` of
+* `Proofs.wholeRewrite env orc expr dir name c as`: what `message_write` renders for the file `name` of
   `dir` with content `c` once the actions of `expr` (label, add-header) have been interpolated - `c`
-  itself when the rules do not act; `Proofs.WholeVersion env orc exprs c c'`: `c'` is `c` after zero or
-  more such complete rewrites by rules of `exprs` (a message that is moved into a maildir walked
+  itself when the rules do not act - when the operating system answers the questions of evaluation (`command`,
+  `isdirectory`, file-time `date` conditions: they are evaluated inside the run, `Model.evalP`) with `as`; for a rule
+  tree without such conditions `as` is irrelevant (`Proofs.wholeRewrite_asksFree`).
+  `Proofs.WholeVersion env orc exprs c c'`: `c'` is `c` after zero or
+  more such complete rewrites by rules of `exprs`, each for some answers (a message that is moved into a maildir walked
   later is processed again).
-* Scope of "any configuration" (audit au1): `processMessage` evaluates the rules with `command := fun _ => -1`,
-  `isDir := fun _ => false`, `fileTime := fun _ => none`; `orc : EvalOracles` quantifies over the regex engine, `strptime` and
-  zone names only.  A configuration that uses a `command` / `isdirectory` / file-date condition is covered in the sense that
-  those conditions are errors / false in every run the theorems speak about.
+* Scope of "any configuration": audit au1 noted that `processMessage` evaluated the rules with the constant oracles
+  `command := fun _ => -1`, `isDir := fun _ => false`, `fileTime := fun _ => none`.  Since package p4 these three fields are not
+  consulted: a `command` / `isdirectory` / file-date condition issues its calls inside the run (`Model.evalP`) and the theorems
+  quantify over their results (the fault plan / the answers `as`); `orc : EvalOracles` quantifies over the regex engine,
+  `strptime`, zone names and `time_format`.
 * "Every registered message has an entry ..." is a statement by CONTENT (`∃ d n fid f, ... WholeVersion .. c f.data`), not by
   identity: two registered messages with the same bytes can be witnessed by one and the same entry.  The counting statements
   are the single-fault ones above.
-* Fuel: `mainP` walks a maildir with fuel `2n+8` (`n` = registered files of its `new` and `cur`).  Under `runPlan` a directory
-  listing longer than that contains an unregistered name, which sets `error` when it is met; no theorem states that the fuel
-  is never the reason a walk ends, except `exit0_walk` under `exit0_Good` (used by `C01_main_exit0_partial`).  For the
-  loss-freedom statements a shorter walk is harmless (`C01_walk_no_loss` holds for every fuel).
+* Fuel (package p12): `mainP` walks a maildir with fuel `2n+8+env.extraFuel` (`n` = registered files of its `new` and `cur`).  A
+  walk that runs out of fuel is FLAGGED (`MainSt.fuelOut`), never silent.  For the loss-freedom statements a shorter walk is
+  harmless (`C01_walk_no_loss` holds for every fuel).  `C01_walk_fuel_suffices`: a run that ends without the error flag (at
+  most one fault, `exit0_Good`) never ran out of fuel; `C01_walk_fuel_suffices_conform`: along an observed trace an allowance
+  of the length of the trace suffices; `C01_fuel_can_run_out`: with an incomplete registry (or enough faults to leave stray
+  placeholders) the standard allowance does run out - and the flag says so.
 * The model-internal registry stays consistent with the world under EVERY fault plan (it is updated
   from the ghost location, which the proof shows to be exact); entries the world has and the registry
   has not (a stray copy after a failed roll-back) only set `error` (`processMessage_unknown`). -/
@@ -305,9 +314,11 @@ theorem C01_start_of_parse (md : Maildir) (d : Handle) (name content : Bytes) (w
   ⟨Proofs.whole_start_of_parse md d name content w fid plan 0 [] hd hp hwf hl hf hc ms hr m fl,
    (Proofs.whole_start_of_parse md d name content w fid plan 0 [] hd hp hwf hl hf hc ms hr m fl).start⟩
 
-/-- **One message.**  `processMessage` under EVERY fault plan, started in a world where the
+/-- **One message.**  `processMessage` under EVERY fault plan (faults may also hit the calls of evaluation: `fork`,
+`waitpid`, `stat`, ...), started in a world where the
 message's entry is bound to a complete file: after every call some entry is bound to a file whose
-visible content is the message or its complete rewrite, and every OTHER entry that existed is bound
+visible content is the message or its complete rewrite (for some answers `as` of the operating system to the questions
+of evaluation), and every OTHER entry that existed is bound
 to the same file, with the same content. -/
 theorem C01_message_no_loss (env : PEnv) (orc : EvalOracles) (expr : Expr) (md : Maildir) (name : Bytes) (st : MainSt)
     (w : World) (plan : Plan) (d : Handle) (content : Bytes) (fid : Nat)
@@ -317,11 +328,11 @@ theorem C01_message_no_loss (env : PEnv) (orc : EvalOracles) (expr : Expr) (md :
     (hl : w.lookup md.path name = some fid) (hlt : fid < w.nextFid) (hf : w.file fid = some ⟨content, content⟩)
     (hnd : Proofs.WholeNoDiscard env orc expr) :
     ∀ w' ∈ (runPlan plan (processMessage env orc expr md name st) w 0 []).2.2,
-      Proofs.Intact w' [content, Proofs.wholeRewrite env orc expr md.path name content] ∧
+      (∃ as, Proofs.Intact w' [content, Proofs.wholeRewrite env orc expr md.path name content as]) ∧
       ∀ q m g, (q, m) ≠ (md.path, name) → w.lookup q m = some g →
-        w'.lookup q m = some g ∧ (g < w.nextFid → w'.file g = w.file g) := fun w' hw' =>
-  ⟨(Proofs.whole_message_no_loss env orc expr md name st w plan hd hp hwf hfc hl hlt hf hnd w' hw').1,
-   (Proofs.whole_message_no_loss env orc expr md name st w plan hd hp hwf hfc hl hlt hf hnd w' hw').2.2⟩
+        w'.lookup q m = some g ∧ (g < w.nextFid → w'.file g = w.file g) := fun w' hw' => by
+  obtain ⟨⟨as, h1, _⟩, h2⟩ := Proofs.whole_message_no_loss env orc expr md name st w plan hd hp hwf hfc hl hlt hf hnd w' hw'
+  exact ⟨⟨as, h1⟩, h2⟩
 
 /-- **One maildir.**  `walk` under EVERY fault plan, from a world with which the registry is
 consistent and in which the maildir's handle is open on its path (`Proofs.WholeMdOk`): after EVERY
@@ -398,38 +409,61 @@ not have the error flag, then (`Proofs.WholeFinalPlace`) the registry and the wo
 in the directory of the last move/flag/flags action, under its own or a formerly free name, bound to a
 file that holds the rewritten message if `ml` contains a label or add-header (in any case the
 original or the rewritten bytes); the original entry is free unless it is the final one; every other
-entry of every directory is bound as before.
+entry of every directory is bound as before.  The rules are evaluated inside the run (the one fault may hit a call of
+evaluation): the statement is for the verdict `Proofs.verdictA … as` of SOME answers `as` of the operating system (those of
+the run), `Proofs.WholeExit0V`: not an error verdict; an action list - final place; no match - the registry is unchanged.  For
+a rule tree without `command` / `isdirectory` / file-time `date` conditions this is the pure verdict (`C01_message_exit0_pure`).
 
 With `C04_error_iff_partial` (exit status 0 iff no cause of the error flag occurred, in particular no
 message's error bit) this is `C01_main_exit0` message by message: "final place" is a notion of one
 processing step - a message moved into a maildir that is walked later is processed again - so the
 statement is made per step and not once for the run. -/
 theorem C01_message_exit0 (env : PEnv) (orc : EvalOracles) (expr : Expr) (md : Maildir) (name : Bytes) (st : MainSt)
+    (w : World) (plan : Plan) (d : Handle) (content : Bytes) (fid : Nat)
+    (hd : md.dirH = some d) (hp : w.dirPath d = some md.path)
+    (hwf : pathjoin PATH_MAX md.root (subdirName md.subdir) = some md.path)
+    (hfc : st.files.get md.path name = some content)
+    (hl : w.lookup md.path name = some fid) (hf : w.file fid = some ⟨content, content⟩) (hc : Proofs.WholeClean w)
+    (hnd : Proofs.WholeNoDiscard env orc expr)
+    (hdry : env.dryrun = false) (hpl : Proofs.World.SingleFault plan)
+    (he : (runPlan plan (processMessage env orc expr md name st) w 0 []).1.1.error = false) :
+    ∃ as, Proofs.WholeExit0V w md name content st (runPlan plan (processMessage env orc expr md name st) w 0 []).1
+      (runPlan plan (processMessage env orc expr md name st) w 0 []).2.1 (Proofs.verdictA env orc expr md.path name content as) :=
+  Proofs.whole_message_exit0 env orc expr md name st w plan hd hp hwf hfc hl hf hc hnd hdry hpl he
+
+/-- The same for a rule tree that asks the operating system nothing, in terms of the pure verdict: if the rules act on the
+message (list `ml`), it is at its final place. -/
+theorem C01_message_exit0_pure (env : PEnv) (orc : EvalOracles) (expr : Expr) (md : Maildir) (name : Bytes) (st : MainSt)
     (w : World) (plan : Plan) (d : Handle) (content : Bytes) (fid : Nat) (ml : MatchList) (msgs : Nat → Msg) (fl : MFlags)
     (hd : md.dirH = some d) (hp : w.dirPath d = some md.path)
     (hwf : pathjoin PATH_MAX md.root (subdirName md.subdir) = some md.path)
     (hfc : st.files.get md.path name = some content)
     (hl : w.lookup md.path name = some fid) (hf : w.file fid = some ⟨content, content⟩) (hc : Proofs.WholeClean w)
-    (hvd : Proofs.verdict env orc expr md.path name content = .act ml msgs fl) (hml : Proofs.NoDiscard ml)
+    (hfree : Proofs.asksFree expr = true) (hnd : Proofs.WholeNoDiscard env orc expr)
+    (hvd : Proofs.verdict env orc expr md.path name content = .act ml msgs fl)
     (hdry : env.dryrun = false) (hpl : Proofs.World.SingleFault plan)
     (he : (runPlan plan (processMessage env orc expr md name st) w 0 []).1.1.error = false) :
     Proofs.WholeFinalPlace w md name content ml (msgs 0) (runPlan plan (processMessage env orc expr md name st) w 0 []).1
-      (runPlan plan (processMessage env orc expr md name st) w 0 []).2.1 :=
-  Proofs.whole_message_exit0 env orc expr md name st w plan hd hp hwf hfc hl hf hc hvd hml hdry hpl he
+      (runPlan plan (processMessage env orc expr md name st) w 0 []).2.1 := by
+  obtain ⟨as, h⟩ := C01_message_exit0 env orc expr md name st w plan d content fid hd hp hwf hfc hl hf hc hnd hdry hpl he
+  rw [Proofs.verdictA_asksFree env orc expr hfree, hvd] at h
+  exact h
 
 /-- Non-vacuity: the rules of the example act on its first message, without discard; not a dry run;
 the plan that fails call 5 with `EIO` has at most one fault. -/
 example : (∃ ml msgs fl, Proofs.verdict Proofs.exEnv Proofs.wholeExOrc Proofs.wholeExExpr Proofs.exMd.path Proofs.exName Proofs.exOrig =
-      .act ml msgs fl ∧ Proofs.NoDiscard ml) ∧
+      .act ml msgs fl ∧ Proofs.NoDiscard ml) ∧ Proofs.asksFree Proofs.wholeExExpr = true ∧
+    Proofs.WholeNoDiscard Proofs.exEnv Proofs.wholeExOrc Proofs.wholeExExpr ∧
     Proofs.exEnv.dryrun = false ∧ Proofs.World.SingleFault (Proofs.World.singlePlan 5 (.fail "EIO")) := by
-  refine ⟨?_, rfl, Proofs.World.singleFault_single _ _⟩
+  refine ⟨?_, by decide, Proofs.whole_noDiscard_of_syntax _ _ _ (by decide), rfl, Proofs.World.singleFault_single _ _⟩
   have hacts : (Proofs.verdict Proofs.exEnv Proofs.wholeExOrc Proofs.wholeExExpr Proofs.exMd.path Proofs.exName Proofs.exOrig).acts = true := by
     unfold Proofs.verdict Proofs.msVerdict Proofs.wholeExExpr
     simp only [eval]
     decide +kernel
   cases h : Proofs.verdict Proofs.exEnv Proofs.wholeExOrc Proofs.wholeExExpr Proofs.exMd.path Proofs.exName Proofs.exOrig with
   | act ml msgs fl =>
-    exact ⟨ml, msgs, fl, rfl, Proofs.whole_noDiscard_of_syntax _ _ _ (by decide) _ _ _ _ _ _ h⟩
+    exact ⟨ml, msgs, fl, rfl, Proofs.whole_noDiscard_of_syntax _ _ Proofs.wholeExExpr (by decide) _ _ _ [] _ _ _
+      (by rw [Proofs.verdictA_asksFree _ _ _ (by decide)]; exact h)⟩
   | unparsable => rw [h] at hacts; cases hacts
   | «nomatch» => rw [h] at hacts; cases hacts
   | error => rw [h] at hacts; cases hacts
@@ -449,7 +483,7 @@ example :
         fun x => x.2 == .err "EIO") = some true ∧
     (runPlan (Proofs.World.singlePlan 6 (.fail "EIO")) (processMessage Proofs.exEnv Proofs.wholeExOrc
       (.mtch 1 (.all 1) (.flag 1 [99, 117, 114])) Proofs.exMd Proofs.exName Proofs.wholeExSt) Proofs.wholeExWorldW 0 []).1.1.error = true := by
-  simp only [processMessage, eval]
+  simp only [processMessage, evalP, evalTop, evalT, eval]
   decide +kernel
 
 /-- Why "exactly once" / "no stray" / "final place" are single-fault statements while loss-freedom is
@@ -466,7 +500,7 @@ example :
     r.1.1.error = true ∧ r.2.1.lookup Proofs.exNew Proofs.exName = some 0 ∧
       r.1.1.files.get Proofs.exNew Proofs.exName = some Proofs.exOrig ∧
       (r.2.1.dir Proofs.exCur).map (·.map (·.2)) = some [2] ∧ r.2.1.file 2 = some ⟨[], []⟩ := by
-  simp only [processMessage, eval]
+  simp only [processMessage, evalP, evalTop, evalT, eval]
   decide +kernel
 
 /-! ## exit status 0 of a whole run (maildir mode, at most one fault)
@@ -497,13 +531,15 @@ is processed twice it becomes a statement about the run (Proofs/WorldExit*.lean)
   occur. -/
 
 /-- **Exit status 0 means every message is at its final place**: maildir mode, real run (no `-d`, no `-n`),
-rules without discard, a plan with at most one fault, no message processed twice (`exit0_Good`): if `main`
+rules without discard that ask the operating system nothing (`Proofs.asksFree`: `exit0_Placed` speaks about the pure
+verdict), a plan with at most one fault, no message processed twice (`exit0_Good`): if `main`
 returns 0 then EVERY message of the initial registry that lies in a configured maildir is placed as the rules
 say, in the world and in the registry `main` ends with - composed from `C01_message_exit0` through `walk`,
 the loops over paths and blocks, with the stickiness of the error flag (`C04_error_flag_inert`). -/
 theorem C01_main_exit0_partial (env : PEnv) (orc : EvalOracles) (confOk : Bool) (conf : List ConfBlock) (files : Files)
     (input : Bytes) (w : World) (plan : Plan)
     (hm : env.stdinMode = false) (hsyn : env.syntaxOnly = false) (hdry : env.dryrun = false)
+    (hfree : ∀ b ∈ conf, Proofs.asksFree b.expr = true)
     (hnd : ∀ b ∈ conf, Proofs.WholeNoDiscard env orc b.expr) (hreg : Proofs.WholeReg w files)
     (hgood : Proofs.exit0_Good ⟨env, orc, Proofs.exit0_dirsOf conf, files, w⟩)
     (hpl : Proofs.World.SingleFault plan)
@@ -511,7 +547,7 @@ theorem C01_main_exit0_partial (env : PEnv) (orc : EvalOracles) (confOk : Bool) 
     ∀ D e n c, (D, e) ∈ Proofs.exit0_dirsOf conf → files.get D n = some c →
       Proofs.exit0_Placed env orc e D n c (runPlan plan (mainP env orc confOk conf files input) w 0 []).1.2
         (runPlan plan (mainP env orc confOk conf files input) w 0 []).2.1 :=
-  (Proofs.exit0_main_exit0 env orc confOk conf files input w plan hm hsyn hdry hnd hreg hgood hpl h0).1
+  (Proofs.exit0_main_exit0 env orc confOk conf files input w plan hm hsyn hdry hfree hnd hreg hgood hpl h0).1
 
 /-- The hypotheses on configuration, registry and world, decidably. -/
 theorem C01_good_check (C : Proofs.exit0_Ctx) (h : Proofs.exit0_goodOk C = true) : Proofs.exit0_Good C :=
@@ -541,12 +577,13 @@ example : Proofs.exit0_Good ⟨Proofs.exEnv, Proofs.wholeExOrc, Proofs.exit0_dir
 (both messages are sent to `/y/new`, which is not configured): maildir mode, real run, no discard, consistent
 registry, `exit0_Good`; the fault-free plan has at most one fault. -/
 example : Proofs.exEnv.stdinMode = false ∧ Proofs.exEnv.syntaxOnly = false ∧ Proofs.exEnv.dryrun = false ∧
+    (∀ b ∈ Proofs.exit0_exConf, Proofs.asksFree b.expr = true) ∧
     (∀ b ∈ Proofs.exit0_exConf, Proofs.WholeNoDiscard Proofs.exEnv Proofs.wholeExOrc b.expr) ∧
     Proofs.WholeReg Proofs.wholeExWorld Proofs.wholeExFiles ∧
     Proofs.exit0_Good ⟨Proofs.exEnv, Proofs.wholeExOrc, Proofs.exit0_dirsOf Proofs.exit0_exConf, Proofs.wholeExFiles,
       Proofs.wholeExWorld⟩ ∧
     Proofs.World.SingleFault Plan.none :=
-  ⟨rfl, rfl, rfl, Proofs.exit0_ex_nd, Proofs.wholeEx_reg, Proofs.exit0_ex_good, Proofs.World.singleFault_none⟩
+  ⟨rfl, rfl, rfl, by decide, Proofs.exit0_ex_nd, Proofs.wholeEx_reg, Proofs.exit0_ex_good, Proofs.World.singleFault_none⟩
 
 /-- **Audit au1: the example above does NOT satisfy the remaining hypothesis `h0`.**  In `Proofs.wholeExWorld` the
 destination `/y/new` does not exist, so the fault-free run of that configuration fails to open it and ends with exit
@@ -557,14 +594,15 @@ example : (runPlan Plan.none (mainP Proofs.exEnv Proofs.wholeExOrc true Proofs.e
     Proofs.wholeExWorld 0 []).1, Proofs.Own.mainP_eq]
   unfold Proofs.Own.mainK
   simp only [Proofs.exit0_exConf, Proofs.Own.blocks_cons, Proofs.Own.blocks_nil, Proofs.Own.paths_cons, Proofs.Own.paths_nil,
-    Proofs.dry_walk_G, Proofs.exit0_exExpr, eval]
+    Proofs.dry_walk_G _ _ Proofs.exit0_exExpr (by decide)]
+  simp only [Proofs.exit0_exExpr, eval]
   decide +kernel
 
 /-- Complete non-vacuity of `C01_main_exit0_partial`, exit status included: the same configuration and registry on
 `Proofs.dry_f21World2` (the two-message world WITH `/y/new` and `/y/cur`): every hypothesis holds (`Proofs.dry_ex_runs.1`
 is the evaluated exit status 0), so both messages are placed in `/y/new`. -/
 example := C01_main_exit0_partial Proofs.exEnv Proofs.wholeExOrc true Proofs.exit0_exConf Proofs.wholeExFiles []
-    Proofs.dry_f21World2 Plan.none rfl rfl rfl Proofs.exit0_ex_nd Proofs.dry_f21_reg2 Proofs.dry_ex_good
+    Proofs.dry_f21World2 Plan.none rfl rfl rfl (by decide) Proofs.exit0_ex_nd Proofs.dry_f21_reg2 Proofs.dry_ex_good
     Proofs.World.singleFault_none Proofs.dry_ex_runs.1
 
 /-- The full statement without the side condition on the rules (`norev`) - kept as a named proposition:
@@ -585,5 +623,211 @@ two-message example with `/y` present.  The verdict on `/m/new/1.h` is `flag cur
 fault-free real run ends with exit status 0, but it found the message again in `/m/cur`, where the second rule
 sent it on to `/y/cur`: no message is registered in `/m/cur` at the end. -/
 theorem C01_main_exit0_false : ¬ C01_main_exit0 := Proofs.dry_exit0_general_false
+
+/-! ## loss-freedom and no-duplication BY LINEAGE (package p12; audit au1, weakness W1)
+
+The theorems `C01_no_loss`, `C01_message_no_loss`, `C01_walk_no_loss`, `C01_main_no_loss` above are statements by CONTENT:
+"some entry is bound to a file with these bytes".  A byte-identical other message satisfies them whatever happens to the
+message itself (`Proofs.twin_by_content_is_weaker`: a world from which message 1 has been removed still satisfies `Intact`
+for its bytes, through message 2).  The theorems of this section follow the IDENTITY of the message.
+
+`Model/Lineage.lean`: a file of the abstract file system has an identity that `rename` preserves; new files are made by
+`openat(O_CREAT|O_EXCL)` and `mkostemp` only.  Reading a trace from the left, `cur` is the file the most recent successful
+`openat(O_RDONLY)` opened (`message_parse`: the message being processed), and a new file descends from what `cur` descended
+from at the moment of its creation; a file that existed initially is its own origin.  `origin w tr g` / `originAt w w' g` is
+the initial file of `w` that `g` descends from after the trace `tr` (the part of the trace of `w'` issued since `w`).  The
+definition reads the trace only - not the program.
+
+Since the origin of a file is a function of the file, the witnesses of two messages that were bound to different files
+are different files, hence different entries (`C01_lineage_witnesses_distinct`): what the audit asked of `WholeInv.track`
+("injective") holds by construction.  The old theorems are corollaries (`C01_no_loss_of_exact`,
+`C01_main_no_loss_of_exact`). -/
+
+/-- **Loss-freedom by lineage, one action list, EVERY fault plan** (any number of faults, any errno, short transfers; lists
+without discard: move on one device or across devices, flag, flags, label, add-header, exec, any order and number).  The
+message's entry is bound to the file `fid`; the lineage starts with "every file is its own origin, `fid` is the message
+that has been opened".  After EVERY call some entry is bound to a file `g` that DESCENDS FROM `fid` and whose visible and
+durable contents are both complete stages of the message. -/
+theorem C01_no_loss_exact (env : PEnv) (ml : MatchList) (st : ExecSt) (w : World) (orig : Bytes) (plan : Plan)
+    (hs : Proofs.Start w st orig) (hd : Proofs.NoDiscard ml) (fid : Nat)
+    (hfid : w.lookup st.src.path st.ms.name = some fid) :
+    ∀ w' ∈ (runPlan plan (matchesExec env ml st) w 0 []).2.2,
+      ∃ p n g f, w'.lookup p n = some g ∧ (lineage w { cur := some fid, org := id } (traceSince w w')).org g = fid ∧
+        w'.file g = some f ∧ f.data ∈ Proofs.stages st.ms orig ∧ f.durable ∈ Proofs.stages st.ms orig :=
+  Proofs.exec_no_loss_exact env ml st w orig plan hs hd { cur := some fid, org := id } fid fid hfid rfl rfl
+
+/-- The by-content theorem is a corollary of the by-lineage one. -/
+theorem C01_no_loss_of_exact (env : PEnv) (ml : MatchList) (st : ExecSt) (w : World) (orig : Bytes) (plan : Plan)
+    (hs : Proofs.Start w st orig) (hd : Proofs.NoDiscard ml) :
+    ∀ w' ∈ (runPlan plan (matchesExec env ml st) w 0 []).2.2, Proofs.Intact w' (Proofs.stages st.ms orig) := by
+  intro w' hw'
+  obtain ⟨fid, hl, _⟩ := hs.bound
+  obtain ⟨p, n, g, f, h1, _, h3, h4, _⟩ := C01_no_loss_exact env ml st w orig plan hs hd fid hl w' hw'
+  exact ⟨p, n, g, f, h1, h3, h4⟩
+
+/-- Non-vacuity on a world with TWO BYTE-IDENTICAL messages (`Proofs.twinExecWorld`: `/m/new/1.h` = file 0 and
+`/m/new/2.h` = file 1 hold the same bytes; message 1 is being processed, list "move to `/m/cur`, then label"). -/
+example : Proofs.Start Proofs.twinExecWorld Proofs.exSt Proofs.exOrig ∧ Proofs.NoDiscard Proofs.exList ∧
+    Proofs.twinExecWorld.lookup Proofs.exSt.src.path Proofs.exSt.ms.name = some 0 ∧
+    Proofs.twinExecWorld.file 0 = Proofs.twinExecWorld.file 1 :=
+  ⟨Proofs.twin_start, Proofs.ex_noDiscard, by decide, by decide⟩
+
+/-- ... evaluated there, under fault plans: without a fault the labelled copy (file 3) descends from file 0 and message 2
+(file 1, same bytes) is under its own lineage; with the unlink of the original failing (one fault) the roll-back works and
+ONE entry descends from file 0; with the roll-back failing as well (two faults) TWO entries descend from file 0. -/
+example :
+    Proofs.entryOrigins Proofs.twinExecWorld ⟨some 0, id⟩
+        (runPlan Plan.none (matchesExec Proofs.exEnv Proofs.exList Proofs.exSt) Proofs.twinExecWorld 0 []).2.1 =
+      [(Proofs.exNew, Proofs.wholeExName2, 1, 1), (Proofs.exCur, Proofs.twinName 9, 3, 0)] ∧
+    Proofs.entryOrigins Proofs.twinExecWorld ⟨some 0, id⟩
+        (runPlan (Proofs.failAt [16]) (matchesExec Proofs.exEnv Proofs.exList Proofs.exSt) Proofs.twinExecWorld 0 []).2.1 =
+      [(Proofs.exNew, Proofs.wholeExName2, 1, 1), (Proofs.exCur, Proofs.twinName 8, 0, 0)] ∧
+    Proofs.entryOrigins Proofs.twinExecWorld ⟨some 0, id⟩
+        (runPlan (Proofs.failAt [16, 17]) (matchesExec Proofs.exEnv Proofs.exList Proofs.exSt) Proofs.twinExecWorld 0 []).2.1 =
+      [(Proofs.exNew, Proofs.wholeExName2, 1, 1), (Proofs.exCur, Proofs.twinName 8, 0, 0), (Proofs.exCur, Proofs.twinName 9, 3, 0)] :=
+  Proofs.twin_exec_runs
+
+/-- **No duplicate by lineage, at most one fault.**  In a world whose entries are bound to existing files (`hwf`) and in
+which the message's file has no second link (`hnl`), after the run of an action list without discard under a plan with at
+most one fault EXACTLY ONE entry is bound to a file that descends from the message's file: there is one (`p`, `n`, `g`),
+and every entry bound to a descendant is that entry.  (With two faults the statement fails: the example above.) -/
+theorem C01_no_duplicate_lineage_single_fault (env : PEnv) (ml : MatchList) (st : ExecSt) (w : World) (orig : Bytes) (plan : Plan)
+    (hs : Proofs.StartAt w st orig) (hd : Proofs.NoDiscard ml) (hp : Proofs.World.SingleFault plan) (fid : Nat)
+    (hfid : w.lookup st.src.path st.ms.name = some fid)
+    (hwf : ∀ q m g, w.lookup q m = some g → g < w.nextFid)
+    (hnl : ∀ q m, w.lookup q m = some fid → (q, m) = (st.src.path, st.ms.name)) :
+    let r := runPlan plan (matchesExec env ml st) w 0 []
+    ∃ p n g, r.2.1.lookup p n = some g ∧ (lineage w { cur := some fid, org := id } (traceSince w r.2.1)).org g = fid ∧
+      ∀ q m g', r.2.1.lookup q m = some g' →
+        (lineage w { cur := some fid, org := id } (traceSince w r.2.1)).org g' = fid → (q, m) = (p, n) :=
+  Proofs.exec_no_duplicate_lineage_single_fault env ml st w orig plan hs hd hp fid hfid hwf hnl
+
+/-- Non-vacuity on the world with two byte-identical messages: all hypotheses, the plan failing call 16 (the unlink of the
+original in `maildir_write`) with `EIO`. -/
+example := C01_no_duplicate_lineage_single_fault Proofs.exEnv Proofs.exList Proofs.exSt Proofs.twinExecWorld Proofs.exOrig
+  (Proofs.World.singlePlan 16 (.fail "EIO")) Proofs.twin_startAt Proofs.ex_noDiscard (Proofs.World.singleFault_single _ _) 0
+  (by decide) Proofs.twin_wf.1 Proofs.twin_wf.2
+
+/-- **One maildir, by lineage**: `walk` under EVERY fault plan, every fuel, registry consistent with the world, maildir's
+handle open on its path, rules without discard: after EVERY call, every registered message, bound initially to the file
+`f0`, has an entry bound to a file that descends from `f0` and whose visible and durable contents are complete versions
+of it. -/
+theorem C01_walk_no_loss_exact (env : PEnv) (orc : EvalOracles) (expr : Expr) (fuel : Nat) (md : Maildir) (st : MainSt)
+    (w : World) (plan : Plan) (hnd : Proofs.WholeNoDiscard env orc expr) (hreg : Proofs.WholeReg w st.files)
+    (hmd : Proofs.WholeMdOk w md) :
+    ∀ w' ∈ (runPlan plan (walk env orc expr fuel md st) w 0 []).2.2,
+      ∀ dir name c f0, st.files.get dir name = some c → w.lookup dir name = some f0 →
+        ∃ d n g f, w'.lookup d n = some g ∧ originAt w w' g = f0 ∧ w'.file g = some f ∧
+          Proofs.WholeVersion env orc [expr] c f.data ∧ Proofs.WholeVersion env orc [expr] c f.durable := by
+  intro w' hw' dir name c f0 hc hl
+  obtain ⟨d, n, g, f, h1, _, h3, h4, h5, h6⟩ :=
+    Proofs.lin_walk_no_loss env orc expr fuel md st w plan hnd hreg hmd w' hw' dir name c f0 hc hl
+  exact ⟨d, n, g, f, h1, h3, h4, h5, h6⟩
+
+/-- **A whole run, by lineage**: maildir mode (`-` not given), any configuration without discard, any population
+consistent with the registry, EVERY fault plan, after EVERY call: every message of the registry, bound initially to the
+file `f0`, has an entry bound to a file `g` that DESCENDS FROM `f0` (`originAt w w' g = f0`) and whose visible content and
+content on stable storage are complete versions of it.  Two messages bound to different files never share a witness
+(`C01_lineage_witnesses_distinct`).  Scope of "any configuration": as for `C01_main_no_loss` (conditions `command`,
+`isdirectory`, file dates are constants of the world model). -/
+theorem C01_main_no_loss_exact (env : PEnv) (orc : EvalOracles) (confOk : Bool) (conf : List ConfBlock) (files : Files) (input : Bytes)
+    (w : World) (plan : Plan) (hm : env.stdinMode = false) (hnd : ∀ b ∈ conf, Proofs.WholeNoDiscard env orc b.expr)
+    (hreg : Proofs.WholeReg w files) :
+    ∀ w' ∈ (runPlan plan (mainP env orc confOk conf files input) w 0 []).2.2,
+      ∀ dir name c f0, files.get dir name = some c → w.lookup dir name = some f0 →
+        ∃ d n g f, w'.lookup d n = some g ∧ originAt w w' g = f0 ∧ w'.file g = some f ∧
+          Proofs.WholeVersion env orc (conf.map (·.expr)) c f.data ∧
+          Proofs.WholeVersion env orc (conf.map (·.expr)) c f.durable := by
+  intro w' hw' dir name c f0 hc hl
+  obtain ⟨d, n, g, f, h1, _, h3, h4, h5, h6⟩ :=
+    Proofs.lin_main_no_loss env orc confOk conf files input w plan hm hnd hreg w' hw' dir name c f0 hc hl
+  exact ⟨d, n, g, f, h1, h3, h4, h5, h6⟩
+
+/-- The witnesses are distinct: in any world, entries bound to files of different origin are different entries, bound to
+different files.  So `C01_main_no_loss_exact` gives every registered message (distinct initial files) an entry of its own. -/
+theorem C01_lineage_witnesses_distinct (w w' : World) (d n d' n' : Bytes) (g g' f0 f0' : Nat)
+    (h1 : w'.lookup d n = some g) (ho : originAt w w' g = f0) (h2 : w'.lookup d' n' = some g') (ho' : originAt w w' g' = f0')
+    (hne : f0 ≠ f0') : g ≠ g' ∧ (d, n) ≠ (d', n') :=
+  Proofs.WholeSafeL.injective (env := Proofs.exEnv) (orc := Proofs.wholeExOrc) (exprs := []) (c := []) (c' := [])
+    (w0 := w) (l0 := Lin.init) h1 ho h2 ho' hne
+
+/-- `C01_main_no_loss` is a corollary of `C01_main_no_loss_exact`. -/
+theorem C01_main_no_loss_of_exact (env : PEnv) (orc : EvalOracles) (confOk : Bool) (conf : List ConfBlock) (files : Files) (input : Bytes)
+    (w : World) (plan : Plan) (hm : env.stdinMode = false) (hnd : ∀ b ∈ conf, Proofs.WholeNoDiscard env orc b.expr)
+    (hreg : Proofs.WholeReg w files) :
+    ∀ w' ∈ (runPlan plan (mainP env orc confOk conf files input) w 0 []).2.2,
+      ∀ dir name c, files.get dir name = some c →
+        ∃ d n fid f, w'.lookup d n = some fid ∧ w'.file fid = some f ∧
+          Proofs.WholeVersion env orc (conf.map (·.expr)) c f.data := by
+  intro w' hw' dir name c hc
+  obtain ⟨f0, hl, _, _⟩ := hreg dir name c hc
+  obtain ⟨d, n, g, f, h1, _, h3, h4, _⟩ := C01_main_no_loss_exact env orc confOk conf files input w plan hm hnd hreg w' hw' dir name c f0 hc hl
+  exact ⟨d, n, g, f, h1, h3, h4⟩
+
+/-- Non-vacuity of `C01_main_no_loss_exact` / `C01_walk_no_loss_exact` on the world with two byte-identical messages
+(`Proofs.twinWorld`, registry `Proofs.twinFiles`, `maildir "/m" { match all flag "cur" label "x" }`): maildir mode, no
+discard, the registry is consistent; the two registered messages have the SAME content and are bound to DIFFERENT files
+(0 and 1), so the by-content theorem can be satisfied by one entry for both while this one demands two. -/
+example : Proofs.exEnv.stdinMode = false ∧
+    (∀ b ∈ Proofs.wholeExConf, Proofs.WholeNoDiscard Proofs.exEnv Proofs.wholeExOrc b.expr) ∧
+    Proofs.WholeReg Proofs.twinWorld Proofs.twinFiles ∧
+    Proofs.twinFiles.get Proofs.exNew Proofs.exName = Proofs.twinFiles.get Proofs.exNew Proofs.wholeExName2 ∧
+    Proofs.twinWorld.lookup Proofs.exNew Proofs.exName = some 0 ∧
+    Proofs.twinWorld.lookup Proofs.exNew Proofs.wholeExName2 = some 1 :=
+  ⟨rfl, Proofs.wholeEx_nd, Proofs.twin_reg, by decide, by decide, by decide⟩
+
+/-! ## the fuel of the walk (package p12; audit au1, W4)
+
+See the section "the fuel of the model's `readdir` loops" of `Props/C04.lean` for the general statements
+(`C04_fuel_irrelevant*`, `C04_fuel_suffices_conform`). -/
+
+/-- **The standard fuel suffices for a run that ends without the error flag**: maildir mode, real run, rules without
+discard and without conditions that ask the operating system (`asksFree`), registry consistent, at most one fault,
+`exit0_Good` (no directory walked twice, distinct names, EVERY name of a walked directory registered, no message sent to a
+directory still to be walked - the hypotheses of `C01_main_exit0_partial`): if the run ends with the error flag clear, then `fuelOut = false` - no walk stopped for lack of
+fuel, for every value of `env.extraFuel` (in particular 0: the allowance `2n+8`).  Bound used by the proof: the walk of `new`
+makes `a+3` iterations (`a` names, `.`, `..`, end), the walk of `cur` at most `a+b+3` (`b` names it had, plus those that
+arrived from `new`), and `2a+b+6 ≤ 2n+8` for `n = a+b` registered files. -/
+theorem C01_walk_fuel_suffices (env : PEnv) (orc : EvalOracles) (confOk : Bool) (conf : List ConfBlock) (files : Files)
+    (input : Bytes) (w : World) (plan : Plan)
+    (hm : env.stdinMode = false) (hsyn : env.syntaxOnly = false) (hdry : env.dryrun = false)
+    (hfree : ∀ b ∈ conf, Proofs.asksFree b.expr = true)
+    (hnd : ∀ b ∈ conf, Proofs.WholeNoDiscard env orc b.expr) (hreg : Proofs.WholeReg w files)
+    (hgood : Proofs.exit0_Good ⟨env, orc, Proofs.exit0_dirsOf conf, files, w⟩)
+    (hpl : Proofs.World.SingleFault plan)
+    (he : (runPlan plan (mainP env orc confOk conf files input) w 0 []).1.2.error = false) :
+    (runPlan plan (mainP env orc confOk conf files input) w 0 []).1.2.fuelOut = false :=
+  Proofs.exit0_main_fuel ⟨env, orc, Proofs.exit0_dirsOf conf, files, w⟩ hgood hm hsyn confOk conf input rfl
+    (fun b hb => Proofs.exit0_step_real env orc b.expr (hfree b hb) hdry (hnd b hb)) hreg plan hpl he
+
+/-- Non-vacuity: the hypotheses of `C01_main_exit0_partial` on `Proofs.dry_f21World2` (see there), the error flag of that run
+is clear because its exit status is 0. -/
+example := C01_walk_fuel_suffices Proofs.exEnv Proofs.wholeExOrc true Proofs.exit0_exConf Proofs.wholeExFiles []
+    Proofs.dry_f21World2 Plan.none rfl rfl rfl (by decide) Proofs.exit0_ex_nd Proofs.dry_f21_reg2 Proofs.dry_ex_good
+    Proofs.World.singleFault_none
+    (Proofs.exit0_status_zero Proofs.exEnv Proofs.wholeExOrc true Proofs.exit0_exConf Proofs.wholeExFiles []
+      Proofs.dry_f21World2 Plan.none rfl Proofs.dry_ex_runs.1)
+
+/-- **Along an observed trace** (`Model.conform`: the next call of the program must be the next call of the trace, the
+observed result must be possible in the abstract file system): with `env.extraFuel ≥ |tr|` a `done` answer never has
+`fuelOut`.  This is the allowance the driver uses for the conformance check. -/
+theorem C01_walk_fuel_suffices_conform (env : PEnv) (orc : EvalOracles) (confOk : Bool) (conf : List ConfBlock) (files : Files)
+    (input : Bytes) (w : World) (tr : List (Call × Res)) (hlen : tr.length ≤ env.extraFuel)
+    (a : Nat × MainSt) (w' : World) (rest : List (Call × Res))
+    (hd : conform (mainP env orc confOk conf files input) w tr 0 = .done a w' rest) : a.2.fuelOut = false :=
+  Proofs.Fuel.fuel_suffices_conform env orc confOk conf files input w tr hlen hd
+
+/-- **The standard fuel CAN run out** (evaluated, fault-free): `/m/new` holds seven files the registry does not list
+(`WholeReg` holds: nothing is registered); the walk gets `2·0+8` iterations, `.`, `..` and six names use them up, the seventh
+name is never seen, `/m/cur` is never opened - and the run ends with `fuelOut = true`.  With an allowance of 5 more
+iterations the run is complete and ends with `fuelOut = false`.  So the hypotheses of `C01_walk_fuel_suffices` (`listed`:
+every name of a walked directory is registered) are not decoration; with a complete registry several faults are needed to
+get there (each stray placeholder of a failed roll-back costs two). -/
+theorem C01_fuel_can_run_out :
+    Proofs.WholeReg Proofs.fuelExWorld [] ∧
+    (runPlan Plan.none (mainP Proofs.exEnv Proofs.wholeExOrc true Proofs.dry_f21Conf [] []) Proofs.fuelExWorld 0 []).1.2.fuelOut = true ∧
+    (runPlan Plan.none (mainP (Proofs.Fuel.withFuel Proofs.exEnv 5) Proofs.wholeExOrc true Proofs.dry_f21Conf [] [])
+      Proofs.fuelExWorld 0 []).1.2.fuelOut = false :=
+  ⟨Proofs.fuelEx_reg, Proofs.fuelEx_runs.1, Proofs.fuelEx_runs.2⟩
 
 end Mdsort.Props
